@@ -441,13 +441,19 @@ Proof.
   unfold name_body in Eb.
   destruct (n_segs n) as [|s0 segs] eqn:Es.
   - (* NullName *)
-    inversion Eb; subst b rest. cbn [N.eqb].
-    change (lenN (@nil N)) with 0.
+    assert (Hb : b = 0 /\ rest = []) by (inversion Eb; split; reflexivity).
+    destruct Hb as (Hb & Hr). clear Eb.
+    assert (N0 : b =? 0 = true) by (rewrite Hb; reflexivity). rewrite N0. rewrite Hr in *.
+    change (lenN (@nil N)) with 0 in *.
     f_equal. f_equal; [f_equal; f_equal; unfold w32, two32 in *; lia|f_equal; lia].
   - destruct (n_multi n || (2 <? lenN (s0 :: segs))) eqn:Em.
     + (* MultiNamePath *)
-      inversion Eb; subst b rest. change (47 =? 0) with false. change (47 =? 46) with false. change (47 =? 47) with true. cbn iota.
-      cbn [app] in T2.
+      assert (Hb : b = 47 /\ rest = lenN (s0 :: segs) :: flat_map seg_bytes (s0 :: segs)) by (inversion Eb; split; reflexivity).
+      destruct Hb as (Hb & Hr). clear Eb.
+      assert (N0 : b =? 0 = false) by (rewrite Hb; reflexivity). rewrite N0.
+      assert (N1 : b =? 46 = false) by (rewrite Hb; reflexivity). rewrite N1.
+      assert (N2 : b =? 47 = true) by (rewrite Hb; reflexivity). rewrite N2.
+      rewrite Hr in *. clear Hr.
       destruct (read_token _ _ _ _ _ T2) as (R2 & T3). rewrite R2. cbn [bind]. rewrite set_offset_raw_twice in *.
       assert (Hc0 : lenN (s0 :: segs) =? 0 = false) by (apply N.eqb_neq; rewrite lenN_cons; lia). rewrite Hc0.
       cbn [r_offset r_pkgEnd set_offset_raw].
@@ -466,7 +472,11 @@ Proof.
       f_equal. f_equal; [f_equal; f_equal; unfold w32, two32 in *; lia|f_equal; rewrite lenN_cons; lia].
     + destruct (lenN (s0 :: segs) =? 2) eqn:E2.
       * (* DualNamePath *)
-        inversion Eb; subst b rest. change (46 =? 0) with false. change (46 =? 46) with true. cbn iota.
+        assert (Hb : b = 46 /\ rest = flat_map seg_bytes (s0 :: segs)) by (inversion Eb; split; reflexivity).
+        destruct Hb as (Hb & Hr). clear Eb.
+        assert (N0 : b =? 0 = false) by (rewrite Hb; reflexivity). rewrite N0.
+        assert (N1 : b =? 46 = true) by (rewrite Hb; reflexivity). rewrite N1.
+        rewrite Hr in *. clear Hr.
         apply N.eqb_eq in E2. rewrite lenN_cons, lenN_flat_seg, E2 in E.
         assert (Hw32 : w32 (q + 1 + w32 (aml_amlNameLen * 2)) = q + 1 + 8).
         { unfold w32, two32, aml_amlNameLen in *. cbn. apply N.mod_small. lia. }
